@@ -11,9 +11,11 @@ def cases(tier, seed):
         yield dict(fn="alg.pdhg", args=dict(m=6, n=4, complex=cplx, g=g, seed=seed, array_steps=True))
     yield dict(fn="alg.pdhg", args=dict(m=6, n=4, complex=False, g="l2sq", seed=seed, gamma_primal=0.1, tol=1e-3))
     yield dict(fn="alg.pdhg", args=dict(m=6, n=4, complex=False, g="l1", seed=seed, gamma_dual=1.0, tol=1e-3))
+    for g in ("none", "l1"):
+        yield dict(fn="alg.pdhg", args=dict(m=8, n=4, complex=False, g=g, seed=seed, gamma_dual=1.0, sigma_ratio=100, iters=10000, tol=5e-3))
 
 
 def groups(tier, seed):
     yield dict(name="GradientMethod / PrimalDualHybridGradient on small composite problems",
                bound="6x4 dense A (well/ill conditioned), g in {0,l1,l2^2,box}, real/complex, accelerate on/off, scalar and array steps, "
-                     "gamma_primal/gamma_dual > 0", cases=cases(tier, seed))
+                     "gamma_primal/gamma_dual > 0 (also with array dual steps spanning a factor 100)", cases=cases(tier, seed))
